@@ -386,9 +386,19 @@ fn eval_ops_inner(req: &str) -> ImplOut {
                 }
                 // users: a formula that used the old spelling and whose value is unchanged must not show it any more
                 // unless another name of that spelling is visible from its sheet
-                let other_same = pre_names.iter().filter(|(x, _, _)| x.to_uppercase() == n.to_uppercase()).count() > 1;
-                if !other_same && n.to_uppercase() != n2.to_uppercase() {
+                // users = formulas on the sheets from which this very definition is visible
+                let scope_id = s.and_then(|k| pre_ids.get(k as usize).copied());
+                if n.to_uppercase() != n2.to_uppercase() {
                     for qo in &post_obs {
+                        let visible = match scope_id {
+                            Some(id) => qo.sheet_id == id,
+                            None => !pre_names
+                                .iter()
+                                .any(|(x, sid, _)| x.to_uppercase() == n.to_uppercase() && *sid == Some(qo.sheet_id)),
+                        };
+                        if !visible {
+                            continue;
+                        }
                         if let Some(fq) = &qo.formula {
                             if has_ident(fq, n) {
                                 out = out.fail("c32:updname:user-not-updated", &format!("{fq} still uses {n}"));
